@@ -157,6 +157,41 @@ def drive_module(rec, quick):
                     rec.violation(label + ": write outside an object, or a source was modified", {"N": n})
                 events.append({"e": "NttSummary", "n": n, "pattern": "module", "mismatches": mism, "_what": label})
         L.delete_module(mod)
+    # lifetimes: several live modules of the same dimension are independent objects - deleting one (or creating another, of the same
+    # or of another dimension) leaves the others usable and correct
+    def round_trip(mod, n, what):
+        v = np.array([rng.choice([-(1 << 63), (1 << 63) - 1, 1, -1, rng.randrange(-(1 << 63), 1 << 63)]) for _ in range(n)], dtype=np.int64)
+        A, D, G = Buf(8 * n, fill=0x3C), Buf(32 * n, fill=0xEE), Buf(16 * n, fill=0xEE)
+        A.i64[:] = v
+        label = "NTT120 dft->idft_tmp_a N=%d %s" % (n, what)
+        if not rec.progress(label):
+            return
+        L.call("vec_znx_dft", mod, D, 1, A, 1, n)
+        L.call("vec_znx_idft_tmp_a", mod, G, 1, D, 1)
+        rec.case(("lifetime", n, what))
+        g = G.u64.reshape(-1, 2)
+        mism = int((g[:, 0].view(np.int64) != v).sum()) + int((g[:, 1].view(np.int64) != (v >> 63)).sum())
+        if not all(b.canaries_ok() for b in (A, D, G)):
+            rec.violation(label + ": write outside an object", {"N": n})
+        events.append({"e": "NttSummary", "n": n, "pattern": "lifetime", "mismatches": mism, "_what": label})
+
+    for n in ([8, 64, 1024] if quick else [2, 8, 64, 256, 1024, 4096]):
+        m1 = L.module(n, NTT120, MASK_NONE)
+        m2 = L.module(n, NTT120, MASK_NONE)
+        round_trip(m1, n, "first of two live modules of this dimension")
+        round_trip(m2, n, "second of two live modules of this dimension")
+        L.delete_module(m1)
+        round_trip(m2, n, "after the other module of this dimension was deleted")
+        m3 = L.module(n, NTT120, MASK_NONE)
+        m4 = L.module(2 * n, NTT120, MASK_NONE)
+        round_trip(m2, n, "after two more modules were created")
+        round_trip(m3, n, "third module of this dimension")
+        L.delete_module(m2)
+        round_trip(m4, 2 * n, "module of the double dimension, after a delete")
+        round_trip(m3, n, "after the second module was deleted")
+        L.delete_module(m4)
+        round_trip(m3, n, "after the module of the double dimension was deleted")
+        L.delete_module(m3)
     rec.data["events"] = events
 
 
